@@ -291,7 +291,9 @@ where
                 }
             }
             JSXElementName::JSXMemberExpr(expr) => Expr::JSXMember(expr.clone()),
-            JSXElementName::JSXNamespacedName(name) => Expr::JSXNamespacedName(name.clone()),
+            JSXElementName::JSXNamespacedName(JSXNamespacedName { ns, name, .. }) => {
+                Expr::Lit(Lit::Str(quote_str!(format!("{}:{}", ns.sym, name.sym))))
+            }
         }
     }
 
@@ -502,10 +504,10 @@ where
                                     ..
                                 }) => Box::new(Expr::JSXEmpty(*expr)),
                                 JSXAttrValue::JSXElement(element) => {
-                                    Box::new(Expr::JSXElement(element.clone()))
+                                    Box::new(self.transform_jsx_element(element))
                                 }
                                 JSXAttrValue::JSXFragment(fragment) => {
-                                    Box::new(Expr::JSXFragment(fragment.clone()))
+                                    Box::new(self.transform_jsx_fragment(fragment))
                                 }
                             })
                             .unwrap_or_else(|| {
